@@ -110,7 +110,11 @@ def compare_traces(ra, rb, props, oracle, world_a, client=None, compare_draws=Tr
             if len(pa) != len(pb):
                 return Violation(props, oracle, "twin-draw-count", cell, f"sid {sid}: {len(pa)} vs {len(pb)} non-degenerate draws"), sid
             for x, y in zip(pa, pb):
-                if x is None or y is None or len(x) != len(y) or np.max(np.abs(x - y)) > 1e-6:
+                if x is not None and y is not None and len(x) != len(y):
+                    n = max(len(x), len(y))  # cutoffs may differ between twins: pad with zeros
+                    x = np.pad(x, (0, n - len(x)))
+                    y = np.pad(y, (0, n - len(y)))
+                if x is None or y is None or np.max(np.abs(x - y)) > 1e-6:
                     return Violation(props, oracle, "twin-probabilities", cell, f"sid {sid}: {x} vs {y}"), sid
         d = snapshot_diff(post_a, post_b, client=client, tol=tol)
         if d is not None:
